@@ -5207,6 +5207,34 @@ class DfaCompileCtx:
                     raise IllegalDFAStateError("Infinite loop due to self-referential fallthrough", transition)
         
 
+    def _verify_redirect_loop(self):
+        """
+        An out-of-space redirect re-dispatches the same character at the handler without consuming it. If the handler
+        unconditionally falls back to the very append that raised it, and nothing on the way touches the output, the
+        parser would spin forever once the output is full.
+        """
+
+        for state in self.dfa.states:
+            for transition in state.transitions:
+                appends = [x for action in transition.actions for x in action.all_subactions() if isinstance(x, (AppendTo, AppendCharTo))]
+                for append in appends:
+                    for symbol in transition.on_values:
+                        visited = set()
+                        position = append.end_target
+                        while position is not None and position not in visited and not isinstance(position, DFConditionPoint):
+                            visited.add(position)
+                            following = position[symbol]
+                            if following is None:
+                                break
+                            if any(append.into_storage in x.modifies() for action in following.actions for x in action.all_subactions()
+                                   if not isinstance(x, (AppendTo, AppendCharTo))):
+                                break  # something empties / rewrites the output, so the append can succeed next time
+                            if following is transition:
+                                raise IllegalDFAStateError("Infinite loop: the out-of-space handler returns to the append that raised it without consuming input", transition)
+                            if not following.is_fallthrough or any(x.get_target_override_mode() != ActionOverrideMode.NONE for x in following.actions):
+                                break
+                            position = following.target
+
     def compile(self):
         """
         Convert the AST into a (potentially optimized) DFA.
@@ -5222,6 +5250,7 @@ class DfaCompileCtx:
 
         # verify correctness of DFA
         self._verify_fallthrough_loop()
+        self._verify_redirect_loop()
 
 class Outputter:
     SHIFT_WIDTH = 4
